@@ -122,7 +122,7 @@ uint64_t dev1_pattern(int n, uint64_t base, int k); /* k in [0, n*n]: k==0 base,
 void perm_unrank(int n, int r, int *perm);      /* r-th permutation in lexicographic order */
 
 /* value schemes: fill dense model entries for pattern */
-#define NVALS 8
+#define NVALS 13
 void make_values(const vf_type *T, int m, int n, uint64_t pat, int scheme, dmat *A);
 /* right-hand sides */
 void make_rhs(const vf_type *T, const dmat *A, int trans, int scheme, int nrhs, dmat *B);
